@@ -51,7 +51,7 @@ TRUSTED_BASE = [
 ASSUMPTIONS = [
     "a repository raises nothing but NoCandidateException out of get_dist (other exceptions end the run; C09)",
     "each solution file records a project at most once; a source tree holds a project at most once per version",
-    "how option lines of requirement files are collected into extra_parameters is C16's subject; only what compile_main does with them is modelled (find-links / solutions / sources given inside files are not merged by compile_main and are not generated)",
+    "how option lines of requirement files are collected into extra_parameters is C16's subject; only what compile_main does with them is modelled (since 6609c06 compile_main also merges file-declared --find-links / --no-index right after the URL merge; those option lines are not generated and that merge is not modelled)",
     "the pooled group's get_candidates (with its (idx, extra_sort_info) tag) is used for listings only: get_dist is inherited from MultiRepository",
 ]
 
